@@ -37,5 +37,8 @@ def run(rep, tier):
     dense.r_span_ends(rep, f)
     rep.rule("R-BDF-DENSE", "BDF dense block: for every order the slots BDF::solve fills with backward differences are exactly the slots BDF::interpolate sums, slot s holding D_s (finite evaluation of the writer's guard and the reader's range)")
     dense.r_bdf_dense(rep, f)
+    rep.rule("R-BDF-INTERP", "BDF: with the dense block solve() stores, interpolate() passes through the last k+1 solution values: u(x) = y_new, u(xold) = y_old, u(x - m h) = y_(n+1-m)")
+    import bdfx
+    bdfx.r_bdf_interp(rep, f)
     rep.explanation = "End-point identities of every step interpolant (explicit methods) at proof level; segment = step taken."
     rep.trusted_base = ["rustc nightly HIR/typeck", "driver/ivp-facts", "engine/symx.py"]
